@@ -109,23 +109,36 @@ def _run(args: tuple[str, str, str, str, str, str]) -> dict[str, Any]:
             if (Path(root) / extra).exists():
                 os.symlink(Path(root) / extra, scratch / extra)
         (scratch / relpath).write_text(new_src)
-        from .main import run_rules
-        try:
-            rep, _ = run_rules(prop, scratch)
-            fired = sorted({o.rule for o in rep.violations})
-            status = "detected" if fired else "undetected"
-        except AnalysisError as exc:
-            fired, status = [str(exc)[:80]], "analysis-error"
+        from .main import run_rules, CLAIMED
+        fired: list[str] = []
+        errors: list[str] = []
+        for pr in (CLAIMED if prop == "ALL" else [prop]):
+            try:
+                rep, _ = run_rules(pr, scratch)
+                fired += sorted({o.rule for o in rep.violations})
+            except AnalysisError as exc:
+                errors.append(f"{pr}: {str(exc)[:80]}")
+        if fired:
+            status = "detected"
+        elif errors:
+            fired, status = errors, "analysis-error"
+        else:
+            status = "undetected"
         return {"func": qual, "desc": desc, "status": status, "fired": fired}
     finally:
         shutil.rmtree(scratch, ignore_errors=True)
 
 
 def generate(prop: str, root: Path) -> list[tuple[str, str, str, str, str, str]]:
-    from .main import run_rules
-    rep, ctx = run_rules(prop, root)
+    from .main import run_rules, CLAIMED
+    seen: set[str] = set()
+    ctx = None
+    for pr in (CLAIMED if prop == "ALL" else [prop]):
+        rep, ctx = run_rules(pr, root)
+        seen |= set(rep.funcs_seen)
+    assert ctx is not None
     jobs = []
-    for q in sorted(rep.funcs_seen):
+    for q in sorted(seen):
         fi = ctx.index.functions.get(q)
         if fi is None:
             continue
@@ -183,6 +196,11 @@ def main() -> int:
         if show:
             for r in und:
                 print(f"   UNDETECTED {r['func']}: {r['desc']}")
+            if "--detected" in sys.argv:
+                for r in res:
+                    if r["status"] == "detected":
+                        print(f"   DETECTED {r['func']}: {r['desc']} :: "
+                              f"{' '.join(r['fired'])}")
             for r in res:
                 if r["status"] == "analysis-error":
                     print(f"   ANALYSIS-ERROR {r['func']}: {r['desc']} :: "
